@@ -131,6 +131,9 @@ def r_divmod(sh, rep, t):
             rep.ok("R04-DIVMOD", v, where, sample={"builtin": v, "operation": ops_desc, "family": f2, "component": ["quotient", "remainder"][comp]})
 
 
+_PIECE_ENV = {}
+
+
 def ev(e, env):
     k = e["k"]
     if k == "Lit" and e["lk"] == "int":
@@ -138,24 +141,71 @@ def ev(e, env):
     if k == "Path":
         if e["p"] in env:
             return env[e["p"]]
+        if e["p"] in _PIECE_ENV:
+            return _PIECE_ENV[e["p"]]
         raise ValueError("free " + e["p"])
+    if k == "Cast":
+        return ev(e["e"], env)
     if k == "Binary":
         l, r = ev(e["l"], env), ev(e["r"], env)
         return {"+": l + r, "-": l - r, "*": l * r}[e["op"]]
     raise ValueError("cannot evaluate " + k)
 
 
+def _file_consts(fj):
+    """private integer constants of a file (resolved recursively on demand by ev)"""
+    out = {}
+    for _, it in items(fj):
+        if it["k"] in ("Const", "Static") and it.get("e") is not None:
+            try:
+                out[it["name"]] = ev(it["e"], out)
+            except (ValueError, KeyError):
+                pass
+    return out
+
+
 def pieces_contains(sh, rel, fn, var):
-    """[(lo, hi, expr)] from `if (lo..=hi).contains(&var) { Some(expr) } else if .. else { None }`"""
+    """[(lo, hi, expr)] from either form of a piecewise map to Option:
+         if (lo..=hi).contains(&var) { Some(expr) } else if .. else { None }
+         match var { lo..=hi => Some(expr), .., _ => None }
+    range ends may be literals or named constants of the file; the returned expressions are evaluated with those constants bound"""
+    consts = _file_consts(sh.file(rel))
+    _PIECE_ENV.clear()
+    _PIECE_ENV.update(consts)
     out = []
     node = None
     for st in fn["body"]["stmts"]:
         if st["k"] == "ExprStmt" and st["e"]["k"] == "If":
             node = st["e"]
+    if node is None:
+        for m in matches_in(fn["body"], lambda e: e["k"] == "Path" and e["p"] == var):
+            for a in m["arms"]:
+                p = a["pat"]
+                body = a["body"]
+                while body["k"] == "Block" and len(body["stmts"]) == 1 and body["stmts"][0]["k"] == "ExprStmt":
+                    body = body["stmts"][0]["e"]
+                if p["k"] == "PRange" and p.get("lo") is not None and p.get("hi") is not None:
+                    lo, hi = ev(p["lo"], consts), ev(p["hi"], consts)
+                    if not p["closed"]:
+                        hi -= 1
+                elif p["k"] == "PLit":
+                    lo = hi = ev(p["e"], consts)
+                elif is_catch_all(p):
+                    continue
+                else:
+                    raise AnchorMissing("arm shape of %s" % fn["name"])
+                if body["k"] == "Call" and call_name(body) == "Some":
+                    out.append((lo, hi, body["args"][0]))
+                else:
+                    raise AnchorMissing("piece body of %s" % fn["name"])
+            return out
+        raise AnchorMissing("piecewise definition of %s (if-chain or match)" % fn["name"])
     while node is not None and node["k"] == "If":
         c = node["cond"]
-        if c["k"] == "MethodCall" and c["m"] == "contains" and c["recv"]["k"] == "Range" and c["recv"]["closed"]:
-            lo, hi = ev(c["recv"]["lo"], {}), ev(c["recv"]["hi"], {})
+        if c["k"] == "MethodCall" and c["m"] == "contains" and c["recv"]["k"] == "Range":
+            lo, hi = ev(c["recv"]["lo"], consts), ev(c["recv"]["hi"], consts)
+            if not c["recv"]["closed"]:
+                hi -= 1
             body = node["then"]["stmts"][-1]["e"]
             if body["k"] == "Call" and call_name(body) == "Some":
                 out.append((lo, hi, body["args"][0]))
@@ -364,6 +414,8 @@ def r_tagsites(sh, rep, rid):
         if not rel.startswith("crates/") or "/tests/" in rel or rel.endswith("tests.rs"):
             continue
         fj = sh.file(rel)
+        _PIECE_ENV.clear()
+        fconsts = {k: v for k, v in _file_consts(fj).items() if isinstance(v, int)}
         for q, f in all_fns(fj):
             hits = []
             for n in walk(f["body"]) if "body" in f else []:
@@ -375,6 +427,8 @@ def r_tagsites(sh, rep, rid):
                 elif n["k"] == "PRange":
                     lits = [x for x in (n.get("lo"), n.get("hi")) if x]
                 vals = [x["v"] for x in lits if isinstance(x, dict) and x.get("k") == "Lit" and x.get("lk") == "int"]
+                # a named constant holding one of the range ends is the same knowledge under another spelling
+                vals += [str(fconsts[x["p"]]) for x in lits if isinstance(x, dict) and x.get("k") == "Path" and x["p"] in fconsts]
                 if any(v in ("121", "1280", "1400") for v in vals) or (vals.count("127") and any(v in TAG_LITERALS - {"127"} for v in vals)):
                     hits.append(n)
             if hits:
@@ -391,7 +445,10 @@ def r_tagsites(sh, rep, rid):
         else:
             rep.bad(rid, "tag-map-site#%s#%s" % (rel.split("/")[-1], q), sh.loc(rel, hits[0]), "%s in %s spells out the constructor-tag ranges (121.. / 1280..1400) itself instead of calling convert_tag_to_constr / convert_constr_to_tag / Data::constr: a private copy of the map that R04-TAGS does not evaluate — an off-by-one here changes which Data value is printed, decoded or built" % (q, rel))
     for o in sorted(TAG_MAP_OWNERS - owners_seen):
-        rep.bad(rid, "tag-map-site#%s#missing" % o[1], o[0], "expected the tag ranges in %s (anchor of R04-TAGS)" % o[1])
+        # R04-TAGS evaluates the owners whatever their spelling; not finding a literal there is not an error of aiken's
+        rep.info("%s: no tag-range literal found in %s any more (R04-TAGS still evaluates it)" % (rid, o[1]))
+    if not owners_seen:
+        rep.bad(rid, "tag-map-site#owners", "crates/uplc/src/machine/runtime.rs", "none of the functions that own the tag map spells a range end any more: the detector may be blind (anchor)")
 
 
 # ---------------------------------------------------------------------------------------------------------
